@@ -64,3 +64,39 @@ Section RP.
     split; [rewrite Hw, files_chunked; reflexivity | rewrite Hm; apply total_stats_counts].
   Qed.
 End RP.
+
+(** the same for paired-end data: a chunk is a list of pairs *)
+From CV Require Import Model.Paired Proofs.PairedProofs.
+Section RPP.
+  Variable order : list kind.
+  Variable forder : list fkind.
+  Variable p : poptions.
+  Variable d : Z.
+  Variable chunks : list (list (read * read)).
+  Variable W : nat.
+  Variable bad : nat -> bool.
+  Variable rfail : option nat.
+  Variable ffail : bool.
+
+  Definition pblock (c : list (read * read)) : list (read * read) := precords_of d (pr_files (prun order forder p c)).
+  Definition pcstat (c : list (read * read)) : Z := pr_n (prun order forder p c).
+
+  Lemma fold_pcstat : forall l : list (list (read * read)),
+    fold_right Z.add 0%Z (map pcstat l) = zsum_map (fun c => pr_n (prun order forder p c)) l.
+  Proof. induction l as [|c t IH]; [reflexivity|]. cbn [map fold_right]. rewrite zsum_map_cons, IH. reflexivity. Qed.
+
+  Theorem multicore_final_paired s : (0 < W)%nat ->
+    reachable (list (read * read)) (list (read * read)) Z pblock pcstat 0%Z Z.add chunks W bad rfail ffail s -> finished_ok s = true ->
+    concat (written s) = precords_of d (pr_files (prun order forder p (concat chunks))) /\
+    macc s = pr_n (prun order forder p (concat chunks)).
+  Proof.
+    intros HW Hr Hf.
+    destruct (finished_stats_total (list (read * read)) (list (read * read)) Z pblock pcstat 0%Z Z.add chunks W bad rfail ffail s HW
+                ltac:(intros; lia) ltac:(intros; lia) ltac:(intros; lia) Hr Hf) as [Hw Hm].
+    split; [rewrite Hw, pair_files_chunked; reflexivity|].
+    rewrite Hm. unfold total_stats, gi, ssum. rewrite pair_counts_chunked.
+    assert (E : map (fun i => match nth_error chunks i with Some c => pcstat c | None => 0%Z end) (seq 0 (length chunks)) = map pcstat chunks).
+    { rewrite <- (gi_map pcstat 0%Z chunks 0). apply map_ext. intros i. rewrite Nat.sub_0_r. reflexivity. }
+    rewrite E. apply fold_pcstat.
+  Qed.
+End RPP.
